@@ -169,6 +169,25 @@ impl Drop for Pair {
 
 /// Execute a script on both storages in lock step. Returns (non-trivial, calls made).
 pub async fn run_script(p: &mut Pair, script: &[Call]) -> Result<(bool, usize), String> {
+    run_script_opt(p, script, true).await
+}
+
+/// Persistence: close and re-open SQLite; nothing may change and the in-memory store still agrees.
+async fn persistence_check(p: &mut Pair, script: &[Call]) -> Result<(), String> {
+    let before = observe_all(p.sql.as_mut().unwrap()).await;
+    p.reopen().await;
+    let after = observe_all(p.sql.as_mut().unwrap()).await;
+    if before != after {
+        return Err(format!("persistence: SQLite returns {after:?} after close and re-open, {before:?} before [script {script:?}]"));
+    }
+    let m = observe_all(&mut p.mem).await;
+    if m != after {
+        return Err(format!("visibility: after re-open SQLite holds {after:?} but the in-memory store {m:?} [script {script:?}]"));
+    }
+    Ok(())
+}
+
+pub async fn run_script_opt(p: &mut Pair, script: &[Call], persist: bool) -> Result<(bool, usize), String> {
     let mut i = 0;
     let mut made = 0;
     let mut wrote = false;
@@ -237,19 +256,10 @@ pub async fn run_script(p: &mut Pair, script: &[Call]) -> Result<(bool, usize), 
         }
     }
     // persistence: close and re-open (nothing to persist if nothing was ever committed)
-    if !wrote {
+    if !wrote || !persist {
         return Ok((false, made));
     }
-    let before = observe_all(p.sql.as_mut().unwrap()).await;
-    p.reopen().await;
-    let after = observe_all(p.sql.as_mut().unwrap()).await;
-    if before != after {
-        return Err(format!("persistence: SQLite returns {after:?} after close and re-open, {before:?} before [script {script:?}]"));
-    }
-    let m = observe_all(&mut p.mem).await;
-    if m != after {
-        return Err(format!("visibility: after re-open SQLite holds {after:?} but the in-memory store {m:?} [script {script:?}]"));
-    }
+    persistence_check(p, script).await?;
     Ok((wrote && abandoned_writes || script.contains(&Call::Reopen) && wrote, made))
 }
 
@@ -489,10 +499,120 @@ fn read_only(rep: &Report) {
     }
 }
 
+/// Whole transactions as actions: the graph of storage states reachable by sequences of these
+/// transactions is explored breadth-first; a state is identified by the full observation of the
+/// in-memory storage (which the lock-step comparison ties to SQLite's), every state is expanded
+/// by every transaction, and each transition replays its whole path on a wiped pair of stores.
+fn txn_alphabet() -> Vec<Vec<Call>> {
+    use Call::*;
+    vec![
+        vec![CreateTask(1), AddOp(0), Commit],
+        vec![SetTask(1, 2), AddOp(1), Commit],
+        vec![DeleteTask(1), AddOp(4), Commit],
+        // what applying a pulled server deletion does: the task goes, no local operation is added
+        vec![DeleteTask(1), Commit],
+        vec![CreateTask(2), SetTask(2, 1), Commit],
+        vec![DeleteTask(2), AddOp(2), Commit],
+        vec![SyncComplete, Commit],
+        vec![SetBase(1), SyncComplete, Commit],
+        vec![AddWs(1), Commit],
+        vec![AddWs(2), SetWs(1, 0), Commit],
+        vec![ClearWs, Commit],
+        vec![AddOp(3), Commit],
+        vec![RemoveOp(1), Commit],
+        vec![RemoveOp(4), RemoveOp(3), Commit],
+        vec![CreateTask(1), AddOp(0), AddWs(1), Abandon],
+        vec![Reopen],
+    ]
+}
+
+fn txn_graph(rep: &Report, max_depth: usize) {
+    use rayon::prelude::*;
+    thread_local! { static PAIR: std::cell::RefCell<Option<Pair>> = const { std::cell::RefCell::new(None) }; }
+    let alpha = txn_alphabet();
+    let seen: dashmap::DashSet<u128> = Default::default();
+    let mut frontier: Vec<Vec<usize>> = vec![vec![]];
+    let (mut transitions, mut calls, mut depth_done) = (0u64, 0u64, 0usize);
+    let mut capped = false;
+    for depth in 1..=max_depth {
+        if rep.over_budget() {
+            capped = true;
+            break;
+        }
+        let jobs: Vec<(usize, usize)> = (0..frontier.len()).flat_map(|i| (0..alpha.len()).map(move |m| (i, m))).collect();
+        let results: Vec<(usize, usize, Result<(u128, usize), String>)> = jobs
+            .par_iter()
+            .map(|&(i, m)| {
+                let script: Vec<Call> = frontier[i].iter().chain(std::iter::once(&m)).flat_map(|&k| alpha[k].iter().copied()).collect();
+                let r = PAIR.with(|cell| {
+                    crate::util::block_on(async {
+                        let mut slot = cell.borrow_mut();
+                        if slot.is_none() {
+                            *slot = Some(Pair::new().await);
+                        }
+                        let p = slot.as_mut().unwrap();
+                        p.reset();
+                        // the path is replayed without the closing re-open; every NEW state gets it
+                        let r = match run_script_opt(p, &script, false).await {
+                            Ok((_, n)) => {
+                                let key = crate::util::h128(&format!("{:?}", observe_all(&mut p.mem).await));
+                                if seen.contains(&key) {
+                                    Ok((key, n))
+                                } else {
+                                    persistence_check(p, &script).await.map(|_| (key, n))
+                                }
+                            }
+                            Err(e) => Err(e),
+                        };
+                        if r.is_err() {
+                            *slot = None;
+                        }
+                        r
+                    })
+                });
+                (i, m, r)
+            })
+            .collect();
+        let mut next = vec![];
+        for (i, m, r) in results {
+            transitions += 1;
+            match r {
+                Ok((key, n)) => {
+                    calls += n as u64;
+                    if seen.insert(key) {
+                        let mut p = frontier[i].clone();
+                        p.push(m);
+                        next.push(p);
+                    }
+                }
+                Err(e) => {
+                    let script: Vec<Call> = frontier[i].iter().chain(std::iter::once(&m)).flat_map(|&k| alpha[k].iter().copied()).collect();
+                    let note = crate::util::confirm_or_exit("C16", &e, || crate::util::block_on(async { run_script(&mut Pair::new().await, &script).await.err() }));
+                    let class = e.split(' ').next().unwrap_or("").trim_end_matches(':').to_string();
+                    rep.violation(Violation::new(format!("{class}:txn-graph"), format!("{e}{note}"), json!({"kind": "c16-script", "script": script, "observed": e})));
+                }
+            }
+        }
+        depth_done = depth;
+        if rep.n_violations() > 0 || next.is_empty() {
+            break;
+        }
+        frontier = next;
+    }
+    if capped {
+        rep.set("exhaustive", false);
+    }
+    rep.add("states", seen.len() as u64);
+    rep.add("transitions", calls);
+    rep.add("traces_validated_against_impl", transitions);
+    rep.set("txn_graph", json!({"transactions_in_alphabet": alpha.len(), "depth_requested": max_depth, "depth_completed": depth_done, "distinct_states": seen.len(), "transitions": transitions, "calls_compared": calls, "capped": capped}));
+    println!("[C16] transaction graph: depth {depth_done} of {max_depth}, {} distinct states, {transitions} transitions, {calls} calls compared, capped={capped} ({:.1}s)", seen.len(), rep.elapsed());
+}
+
 pub fn run(opts: &Opts) -> i32 {
     let rep = Report::new("C16", "model_checking", opts);
     rep.set("exhaustive", true);
-    rep.set("rule", "every script of exactly d StorageTxn calls over an alphabet of 24 (thorough 38) calls (tasks, operations, base version, working set, sync_complete, is_empty, commit, abandon, close+re-open) with 2 uuids and non-ASCII/empty strings, executed in lock step on InMemoryStorage and SqliteStorage; every return value compared (collections as sorted sets, errors as 'is error'), full observation compared after every transaction end and after close + re-open; the same after a prefix of 25 operations and 12 working-set entries; the same on databases created by raw SQL under schemas 0.8, 0.9, (0,1), (0,2) with pre-loaded content; every mutator and commit on a read-only handle; non-trivial = scripts that abandon a transaction containing writes after an earlier committed write, or re-open after a committed write");
+    rep.set("rule", "every script of exactly d StorageTxn calls over an alphabet of 24 (thorough 38) calls (tasks, operations, base version, working set, sync_complete, is_empty, commit, abandon, close+re-open) with 2 uuids and non-ASCII/empty strings, executed in lock step on InMemoryStorage and SqliteStorage; every return value compared (collections as sorted sets, errors as 'is error'), full observation compared after every transaction end and after close + re-open; the graph of storage states reachable by sequences of up to 6 (thorough 9) whole transactions from an alphabet of 16 (create/update/delete with and without the matching operation, sync_complete with and without a new base version, working-set edits, undo-style removals, an abandoned transaction, close+re-open), states identified by their full observation; the same after a prefix of 25 operations and 12 working-set entries; the same on databases created by raw SQL under schemas 0.8, 0.9, (0,1), (0,2) with pre-loaded content; every mutator and commit on a read-only handle; non-trivial = scripts that abandon a transaction containing writes after an earlier committed write, or re-open after a committed write");
     rep.assume("contract restrictions: set_working_set_item only with 1 <= index < current length; no call after commit and no second commit in one transaction; error messages are not compared");
     let q = opts.tier == Tier::Quick;
     run_scripts(&rep, "reduced-alphabet", scripts(&alphabet(false), if q { 3 } else { 4 }));
@@ -513,6 +633,7 @@ pub fn run(opts: &Opts) -> i32 {
     many.push(Call::Commit);
     let tails = scripts(&alphabet(true), if q { 1 } else { 2 });
     run_scripts(&rep, "many-rows-prefix", tails.into_iter().map(|t| many.iter().cloned().chain(t).chain([Call::Commit, Call::Reopen, Call::Unsynced, Call::GetWs, Call::TaskOps(1)]).collect()).collect());
+    txn_graph(&rep, if q { 6 } else { 9 });
     legacy(&rep);
     read_only(&rep);
     rep.finish()
